@@ -289,12 +289,16 @@ func longestPrefix(s1, s2 string) int {
 	for i := 0; i < l; i++ {
 		switch s1[i] {
 		case startByte:
-			startIndex = i
-			state = startByte
-			hasRule = false
+			if state != startByte { // 参数之内的 { 属于规则的一部分，参数到第一个 } 为止。
+				startIndex = i
+				state = startByte
+				hasRule = false
+			}
 		case endByte:
-			state = endByte
-			endIndex = i
+			if state == startByte {
+				state = endByte
+				endIndex = i
+			}
 		case separatorByte:
 			hasRule = hasRule || state == startByte
 		}
